@@ -11,6 +11,13 @@ import replaylib as rl
 IMPORTS = 'From SV Require Import Base.Sym Base.Tensor Model.SymInst Model.Sectors Model.Array.\n'
 SYMS = ['Z2', 'U1', 'Z2Z2', 'U1U1', 'Z4']
 MODES = {'auto': 'MAuto', 'fused': 'MFused', 'blockwise': 'MBlockwise'}
+# run-time tie of the TRANSLATED block-pairing logic (Gen/BlockwiseGen.v, tr/gen_blockwise.py): own shard and imports,
+# so that the hand-model tie above keeps working when the generated file is missing
+GEN_IMPORTS = IMPORTS + 'From SV Require Import Gen.BlockwiseGen.\n'
+GEN_PREAMBLE = '''Definition aeq_strict (G : Symmetry) (R : Ring) (x y : aarray G R) : bool :=
+  list_eqb (index_eqb G) (indices G R x) (indices G R y) && ceqb G (charge G R x) (charge G R y)
+  && blocks_eqb_strict G R (blocks G R x) (blocks G R y).
+'''
 
 
 def rand_subsector_pair(rng, sr, sym, cplx):
@@ -131,6 +138,12 @@ def run(ctx):
     rng = ctx.rng
     n_cases = 1500 if ctx.thorough else 260
     exprs, meta, found = [], [], []
+    gexprs, gmeta, gen_broken = [], [], []
+    try:
+        from symmray.abelian_core import drop_misaligned_sectors
+    except Exception as e:
+        drop_misaligned_sectors = None
+        gen_broken.append('import of symmray.abelian_core.drop_misaligned_sectors: %s: %s' % (type(e).__name__, e))
     stats = {'subsector_mismatch': 0, 'aligned_pairs>=2': 0, 'no_aligned': 0, 'scalar': 0, 'outer': 0, 'pruned': 0, 'neg_axes': 0, 'complex': 0}
     for k in range(n_cases):
         sym = SYMS[k % len(SYMS)]
@@ -181,6 +194,24 @@ def run(ctx):
                 sym, ring, gen.garray(a, sym, ring), gen.garray(b, sym, ring), gaxes_spec(axa_in, axb_in), MODES[mode],
                 sym, ring, gen.garray(c, sym, ring)))
             meta.append(('tensordot', mode, sym, k))
+            if mode == 'blockwise':
+                # the translated `_tensordot_blockwise` (block order included) on the arguments `tensordot` passes to it
+                la = [i for i in range(a.ndim) if i not in axa]
+                rb = [j for j in range(b.ndim) if j not in axb]
+                gexprs.append('aeq_strict %s %s (gen_tensordot_blockwise %s %s %s %s %s %s %s %s) %s' % (
+                    sym, ring, sym, ring, gen.garray(a, sym, ring), gen.garray(b, sym, ring), gen.gnatlist(la), gen.gnatlist(axa),
+                    gen.gnatlist(axb), gen.gnatlist(rb), gen.garray(c, sym, ring)))
+                gmeta.append(('gen_tensordot_blockwise', sym, k))
+        if drop_misaligned_sectors is not None:
+            # the translated `drop_misaligned_sectors` on the same pair
+            try:
+                a2, b2 = drop_misaligned_sectors(a, b, tuple(axa), tuple(axb))
+                gexprs.append('(let r := gen_drop_misaligned_sectors %s %s %s %s %s %s in aeq_strict %s %s (fst r) %s && aeq_strict %s %s (snd r) %s)' % (
+                    sym, ring, gen.garray(a, sym, ring), gen.garray(b, sym, ring), gen.gnatlist(axa), gen.gnatlist(axb),
+                    sym, ring, gen.garray(a2, sym, ring), sym, ring, gen.garray(b2, sym, ring)))
+                gmeta.append(('gen_drop_misaligned_sectors', sym, k))
+            except Exception as e:
+                gen_broken.append('drop_misaligned_sectors raised on a contractible pair (symmetry %s, case %d): %s: %s' % (sym, k, type(e).__name__, e))
         # same contraction again with the contracted pairs listed in another order on
         # `a` only (b is transposed instead): same arrays, warm fuse cache
         if len(axa) >= 2:
@@ -273,14 +304,18 @@ def run(ctx):
         b = gen.rand_array(rng, sr, sym, chargemaps=cmb, duals=dub, cplx=cplx, lo=-2, hi=2)
         ring = gen.ring_of(a, b)
         ctx.count()
-        c = a.__matmul__(b, preserve_array=True)
-        bad = dense_oracle(a, b, [nda - 1], [0], c)
+        try:
+            c = a.__matmul__(b, preserve_array=True)
+            bad = dense_oracle(a, b, [nda - 1], [0], c)
+        except Exception as e:  # the property admits no exception on a contractible pair
+            c, bad = None, {'raised': '%s: %s' % (type(e).__name__, e)}
         if bad is not None:
             found.append({'op': 'matmul', 'a': describe(a), 'b': describe(b), **bad,
                           'replay': rl.record('matmul', {'a': a, 'b': b}, {'symmetry': sym})})
-        exprs.append('match a_matmul %s %s %s %s with Some c => aarray_eqb %s %s c %s | None => false end' % (
-            sym, ring, gen.garray(a, sym, ring), gen.garray(b, sym, ring), sym, ring, gen.garray(c, sym, ring)))
-        meta.append(('matmul', '', sym, k))
+        if c is not None:
+            exprs.append('match a_matmul %s %s %s %s with Some c => aarray_eqb %s %s c %s | None => false end' % (
+                sym, ring, gen.garray(a, sym, ring), gen.garray(b, sym, ring), sym, ring, gen.garray(c, sym, ring)))
+            meta.append(('matmul', '', sym, k))
         # trace and einsum on a square-able array
         nd = rng.choice([2, 2, 3, 4])
         cms = [gen.rand_chargemap(rng, sym) for _ in range(nd)]
@@ -332,6 +367,14 @@ def run(ctx):
     elif bad_idx:
         tie_broken += ['Model.%s[%s] disagrees with the implementation (symmetry %s, case %d)' % meta[i] for i in bad_idx[:10]]
         ctx.extra['disagreeing_cases'] = [exprs[i][:3000] for i in bad_idx[:3]]
+    # ---- the translated block-pairing logic against the implementation
+    bad_gen = common.run_cases(ctx, 'blockwise_gen', GEN_IMPORTS, GEN_PREAMBLE, gexprs, shard=60)
+    tie_broken += gen_broken[:5]
+    if bad_gen is None:
+        tie_broken.append('cases.v (Gen/BlockwiseGen.v, the translated block-pairing logic, vs implementation) did not evaluate')
+    elif bad_gen:
+        tie_broken += ['Gen.BlockwiseGen.%s disagrees with the implementation (symmetry %s, case %d)' % gmeta[i] for i in bad_gen[:10]]
+        ctx.extra['disagreeing_gen_cases'] = [gexprs[i][:3000] for i in bad_gen[:3]]
     for f in found[:5]:
         ctx.violation('%s differs from the dense contraction' % f['op'], {'oracle': 'numpy on own dense embedding', **f, 'run': rl.run_info(ctx)})
     ctx.broken += tie_broken
@@ -339,7 +382,8 @@ def run(ctx):
         ctx.violation('proof obligation or tie of C02 no longer checks',
                       {'broken': ctx.broken, 'replay': rl.record('proof_phase')}, found_input=False)
     ctx.extra['case_classes'] = stats
-    ctx.extra['tie'] = {'model_cases': len(exprs)}
+    ctx.extra['tie'] = {'model_cases': len(exprs), 'translated_blockwise_cases': len(gexprs),
+                        'translated_blockwise_disagreeing': (None if bad_gen is None else len(bad_gen))}
     ctx.coverage['rule'] = ('random contractible pairs (rank 0-4, 1-3 charges/index, sizes 1-3, random dualness/charge/sparsity, '
                             'real and Gaussian-integer data, 0..ndim contracted axes in random order, negative axes) x modes '
                             'blockwise/fused/auto, plus matmul/trace/einsum; non-trivial = a sparse operand with >=1 contracted axis, '
@@ -399,7 +443,10 @@ def _rp_scalar(sr, ins, pr, r):
 
 def _rp_matmul(sr, ins, pr, r):
     a, b = ins['a'], ins['b']
-    c = a.__matmul__(b, preserve_array=True)
+    try:
+        c = a.__matmul__(b, preserve_array=True)
+    except Exception as e:
+        return [{'what': 'a @ b raises', 'expected': 'the dense product', 'got': '%s: %s' % (type(e).__name__, e)}]
     return rl.fail_from(dense_oracle(a, b, [a.ndim - 1], [0], c), 'a @ b')
 
 
